@@ -38,6 +38,8 @@ ALLOWED_NODES = (
     ast.Lt, ast.LtE, ast.Gt, ast.GtE, ast.BitOr, ast.Is, ast.IsNot,
     # statements inside pure helper functions
     ast.Assign, ast.AugAssign, ast.AnnAssign, ast.Return, ast.For, ast.If, ast.Expr, ast.Pass, ast.arguments, ast.arg,
+    # a generator over immutable inputs is as pure as the list it stands for
+    ast.Yield, ast.YieldFrom,
 )
 
 
@@ -98,7 +100,7 @@ class _Verifier:
                 continue
             for n in ast.walk(st):
                 if isinstance(n, (ast.Global, ast.Nonlocal, ast.Import, ast.ImportFrom, ast.While, ast.Try, ast.With,
-                                  ast.Raise, ast.Yield, ast.YieldFrom, ast.Lambda, ast.FunctionDef, ast.ClassDef, ast.Delete)):
+                                  ast.Raise, ast.Lambda, ast.FunctionDef, ast.ClassDef, ast.Delete)):
                     self.why = f"{type(n).__name__} in helper"
                     return False
             if not self.ok_expr(st, local):
